@@ -382,3 +382,814 @@ Lemma rescan_rule_tie :
   fstate_code FUnconfirmed = gen_rescan_confirm_state /\
   gen_startup_sequence = [1; 2; 3; 4; 5].
 Proof. split; [intros f; destruct f; reflexivity | split; reflexivity]. Qed.
+
+(* ------------------------------------------------------------------------------------------ *)
+(* Cone: row-update helpers                                                                    *)
+(* ------------------------------------------------------------------------------------------ *)
+Definition need_of (l : str) (s : st) : option need :=
+  match find_step l s with Some r => Some (sneed r) | None => None end.
+
+Lemma find_map_upd {A} (lab : A -> str) (rows : list A) (l l' : str) (f : A -> A) :
+  (forall r, lab (f r) = lab r) ->
+  find (fun r => str_eqb (lab r) l') (map (fun r => if str_eqb (lab r) l then f r else r) rows)
+  = option_map (fun r => if str_eqb (lab r) l then f r else r) (find (fun r => str_eqb (lab r) l') rows).
+Proof.
+  intros Hlab. induction rows as [|a rows IH]; cbn [map find option_map]; [reflexivity|].
+  assert (Ha : lab (if str_eqb (lab a) l then f a else a) = lab a).
+  { destruct (str_eqb (lab a) l); [apply Hlab | reflexivity]. }
+  rewrite Ha. destruct (str_eqb (lab a) l'); [reflexivity | exact IH].
+Qed.
+
+Lemma has_dep_deps a b s s' : deps s' = deps s -> has_dep a b s' = has_dep a b s.
+Proof. intros H. unfold has_dep. rewrite H. reflexivity. Qed.
+
+Lemma sstate_of_steps l s s' : steps s' = steps s -> sstate_of l s' = sstate_of l s.
+Proof. intros H. unfold sstate_of, find_step. rewrite H. reflexivity. Qed.
+Lemma need_of_steps l s s' : steps s' = steps s -> need_of l s' = need_of l s.
+Proof. intros H. unfold need_of, find_step. rewrite H. reflexivity. Qed.
+Lemma fstate_of_files f s s' : files s' = files s -> fstate_of f s' = fstate_of f s.
+Proof. intros H. unfold fstate_of, find_file. rewrite H. reflexivity. Qed.
+
+Lemma set_sstate_spec l new d s s1 :
+  set_sstate l new d s = Ok s1 ->
+  nodes s1 = nodes s /\ files s1 = files s /\ deps s1 = deps s /\ shash s1 = shash s /\
+  length (steps s1) = length (steps s) /\
+  (forall l', need_of l' s1 = need_of l' s) /\
+  (forall l', sstate_of l' s1 = sstate_of l' s \/ (l' = l /\ sstate_of l' s1 = Some new)).
+Proof.
+  unfold set_sstate. destruct (find_step l s) as [r|] eqn:Hf.
+  - destruct (d && negb (sstate_eqb new SPending)); [discriminate|].
+    intros H. injection H as <-.
+    set (g := fun r0 : srow => mkS (sl r0) new (sneed r0) _ _ _).
+    repeat split; try reflexivity.
+    + unfold upd_step. cbn [steps set_steps]. apply map_length.
+    + intros l'. unfold need_of, find_step, upd_step. cbn [steps set_steps].
+      rewrite (find_map_upd sl (steps s) l l' g) by reflexivity.
+      destruct (find (fun r0 => str_eqb (sl r0) l') (steps s)) as [r0|]; cbn [option_map]; [|reflexivity].
+      destruct (str_eqb (sl r0) l); reflexivity.
+    + intros l'. unfold sstate_of, find_step, upd_step. cbn [steps set_steps].
+      rewrite (find_map_upd sl (steps s) l l' g) by reflexivity.
+      destruct (find (fun r0 => str_eqb (sl r0) l') (steps s)) as [r0|] eqn:Hf'; cbn [option_map]; [|left; reflexivity].
+      destruct (str_eqb (sl r0) l) eqn:He; [|left; reflexivity].
+      right. apply find_some in Hf'. destruct Hf' as [_ Hl']. apply str_eqb_eq in Hl'. apply str_eqb_eq in He.
+      split; [congruence | reflexivity].
+  - intros H. injection H as <-. repeat split; try reflexivity. intros l'. left. reflexivity.
+Qed.
+
+Lemma set_fstate_hash_spec l new nh s s1 :
+  set_fstate_hash l new nh s = Ok s1 ->
+  nodes s1 = nodes s /\ steps s1 = steps s /\ deps s1 = deps s /\ shash s1 = shash s /\
+  (forall f, fstate_of f s1 = fstate_of f s \/ (f = l /\ fstate_of f s1 = Some new)).
+Proof.
+  unfold set_fstate_hash. destruct (find_file l s) as [r|] eqn:Hf.
+  - match goal with |- (if ?c then _ else _) = _ -> _ => destruct c end; [discriminate|].
+    match goal with |- (if ?c then _ else _) = _ -> _ => destruct c end; [discriminate|].
+    intros H. injection H as <-.
+    set (g := fun r0 : frow => mkF (fl r0) new _).
+    repeat split; try reflexivity.
+    intros f. unfold fstate_of, find_file, upd_file. cbn [files set_files].
+    rewrite (find_map_upd fl (files s) l f g) by reflexivity.
+    destruct (find (fun r0 => str_eqb (fl r0) f) (files s)) as [r0|] eqn:Hf'; cbn [option_map]; [|left; reflexivity].
+    destruct (str_eqb (fl r0) l) eqn:He; [|left; reflexivity].
+    right. apply find_some in Hf'. destruct Hf' as [_ Hl']. apply str_eqb_eq in Hl'. apply str_eqb_eq in He.
+    split; [congruence | reflexivity].
+  - intros H. injection H as <-. repeat split; try reflexivity. intros f. left. reflexivity.
+Qed.
+
+(* members of the sink lists are linked by a dependency row *)
+Lemma key_eqb_eq a b : key_eqb a b = true <-> a = b.
+Proof.
+  destruct a as [ka la], b as [kb lb]. unfold key_eqb. cbn [fst snd]. split.
+  - intros H. apply andb_true_iff in H. destruct H as [Hk Hl]. apply str_eqb_eq in Hl. subst lb.
+    destruct ka, kb; try discriminate; reflexivity.
+  - intros H. injection H as -> ->. rewrite kind_eqb_refl, str_eqb_refl. reflexivity.
+Qed.
+
+Lemma in_sinks_has_dep k x s : In x (sinks_of k s) -> has_dep k x s = true.
+Proof.
+  unfold sinks_of, has_dep. intros H. apply in_map_iff in H. destruct H as [d [Hd Hin]].
+  apply filter_In in Hin. destruct Hin as [Hin Hsrc]. apply existsb_exists. exists d. split; [exact Hin|].
+  rewrite Hsrc. subst x. rewrite key_eqb_refl. reflexivity.
+Qed.
+
+Lemma file_sink_has_dep l f s : In f (file_sinks_of_step l s) -> has_dep (KStep, l) (KFile, f) s = true.
+Proof.
+  unfold file_sinks_of_step. intros H. apply in_map_iff in H. destruct H as [k [Hk Hin]].
+  apply filter_In in Hin. destruct Hin as [Hin Hkind]. apply in_sinks_has_dep in Hin.
+  destruct k as [kk kl]. cbn [fst snd] in *. subst kl. destruct kk; try discriminate. exact Hin.
+Qed.
+
+Lemma step_sink_has_dep f l s : In l (step_sinks_of_file f s) -> has_dep (KFile, f) (KStep, l) s = true.
+Proof.
+  unfold step_sinks_of_file. intros H. apply in_map_iff in H. destruct H as [k [Hk Hin]].
+  apply filter_In in Hin. destruct Hin as [Hin Hkind]. apply in_sinks_has_dep in Hin.
+  destruct k as [kk kl]. cbn [fst snd] in *. subst kl. destruct kk; try discriminate. exact Hin.
+Qed.
+
+(* ------------------------------------------------------------------------------------------ *)
+(* Cone: propagation stays inside a set of keys closed under dependency edges                   *)
+(* ------------------------------------------------------------------------------------------ *)
+Section Cone.
+  Variable D : key -> Prop.
+  Variable E : list str.
+
+  Definition closed (s : st) : Prop := forall a b, D a -> has_dep a b s = true -> D b.
+  Definition Estatic (s : st) : Prop :=
+    forall f, In f E -> fstate_of f s = Some FConfirmed \/ fstate_of f s = Some FMissing.
+  Definition good (s : st) : Prop := closed s /\ Estatic s.
+
+  (* what a propagation may change: step states, only inside D; file states, only BUILT ones *)
+  Definition PS (s s' : st) : Prop :=
+    nodes s' = nodes s /\ deps s' = deps s /\ length (steps s') = length (steps s) /\
+    (forall l, need_of l s' = need_of l s) /\
+    (forall l, sstate_of l s' = sstate_of l s \/ (D (KStep, l) /\ sstate_of l s' = Some SPending)).
+  Definition P (s s' : st) : Prop :=
+    PS s s' /\ (forall f, fstate_of f s' = fstate_of f s \/ fstate_of f s = Some FBuilt).
+
+  Lemma P_refl s : P s s.
+  Proof. repeat split; try reflexivity; intros; left; reflexivity. Qed.
+
+  Lemma P_trans a b c : P a b -> P b c -> P a c.
+  Proof.
+    intros [[Hn1 [Hd1 [Hl1 [Hq1 Hs1]]]] Hf1] [[Hn2 [Hd2 [Hl2 [Hq2 Hs2]]]] Hf2].
+    refine (conj (conj _ (conj _ (conj _ (conj _ _)))) _).
+    - congruence.
+    - congruence.
+    - congruence.
+    - intros l. rewrite (Hq2 l). apply Hq1.
+    - intros l. destruct (Hs2 l) as [He|Hr]; [|right; exact Hr].
+      rewrite He. apply Hs1.
+    - intros f. destruct (Hf2 f) as [He|Hb].
+      + rewrite He. apply Hf1.
+      + destruct (Hf1 f) as [He1|Hb1]; [right; congruence | right; exact Hb1].
+  Qed.
+
+  Lemma good_P s s' : good s -> P s s' -> good s'.
+  Proof.
+    intros [Hc He] [[Hn [Hd _]] Hf]. split.
+    - intros a b Ha Hab. rewrite (has_dep_deps a b s s' Hd) in Hab. exact (Hc a b Ha Hab).
+    - intros f Hin. destruct (Hf f) as [Heq|Hb]; [rewrite Heq; apply He; exact Hin|].
+      destruct (He f Hin) as [H1|H1]; rewrite H1 in Hb; discriminate.
+  Qed.
+
+  Lemma foldM_P {A} (g : st -> A -> res st) (Q : A -> Prop) (l : list A) :
+    (forall a s s', Q a -> good s -> g s a = Ok s' -> P s s') ->
+    (forall a, In a l -> Q a) ->
+    forall s s', good s -> foldM g l s = Ok s' -> P s s'.
+  Proof.
+    intros Hg. induction l as [|a l IH]; intros HQ s s' Hgood H; cbn [foldM] in H.
+    - injection H as <-. apply P_refl.
+    - destruct (g s a) as [s1| |] eqn:Hga; cbn [bind] in H; try discriminate.
+      assert (P1 : P s s1) by (apply (Hg a s s1); [apply HQ; left; reflexivity | exact Hgood | exact Hga]).
+      apply (P_trans s s1 s' P1). apply IH; [intros b Hb; apply HQ; right; exact Hb | exact (good_P s s1 Hgood P1) | exact H].
+  Qed.
+
+  Lemma mspf_eq fuel l s :
+    mark_step_pending_f (S fuel) l s =
+    match sstate_of l s with
+    | None => Internal 104
+    | Some SRunning | Some SChecking => Ok s
+    | Some old =>
+      do s1 <- set_sstate l SPending false s;
+      match old with
+      | SSucceeded | SFailed =>
+        foldM (fun s f => match fstate_of f s with
+                          | Some FBuilt => mark_file_outdated_f fuel f s
+                          | _ => Ok s end) (file_sinks_of_step l s1) s1
+      | _ => Ok s1
+      end
+    end.
+  Proof. reflexivity. Qed.
+
+  Lemma mfof_eq fuel f s :
+    mark_file_outdated_f (S fuel) f s =
+    match fstate_of f s with
+    | Some FBuilt =>
+      do s1 <- set_fstate f FOutdated s;
+      foldM (fun s l => mark_step_pending_f fuel l s) (step_sinks_of_file f s1) s1
+    | Some FOutdated => Ok s
+    | _ => Internal 105
+    end.
+  Proof. reflexivity. Qed.
+
+  Lemma set_pending_P l s s1 : D (KStep, l) -> set_sstate l SPending false s = Ok s1 -> P s s1.
+  Proof.
+    intros HD H. destruct (set_sstate_spec _ _ _ _ _ H) as [Hn [Hf [Hd [_ [Hl [Hq Hs]]]]]].
+    repeat split; try assumption.
+    - intros l'. destruct (Hs l') as [He|[-> Hp]]; [left; exact He | right; split; assumption].
+    - intros f. left. apply fstate_of_files. exact Hf.
+  Qed.
+
+  Lemma mark_spec fuel :
+    (forall l s s', D (KStep, l) -> good s -> mark_step_pending_f fuel l s = Ok s' -> P s s') /\
+    (forall f s s', D (KFile, f) -> good s -> mark_file_outdated_f fuel f s = Ok s' -> P s s').
+  Proof.
+    induction fuel as [|fuel [IHs IHf]].
+    - split; intros; discriminate.
+    - split.
+      + intros l s s' HD Hgood H. rewrite mspf_eq in H.
+        destruct (sstate_of l s) as [old|] eqn:Hold; [|discriminate].
+        destruct old.
+        * (* PENDING *)
+          destruct (set_sstate l SPending false s) as [s1| |] eqn:H1; cbn [bind] in H; try discriminate.
+          injection H as <-. exact (set_pending_P l s s1 HD H1).
+        * injection H as <-. apply P_refl.
+        * (* SUCCEEDED *)
+          destruct (set_sstate l SPending false s) as [s1| |] eqn:H1; cbn [bind] in H; try discriminate.
+          assert (P1 : P s s1) by exact (set_pending_P l s s1 HD H1).
+          apply (P_trans s s1 s' P1).
+          assert (G1 : good s1) by exact (good_P s s1 Hgood P1).
+          apply (fun Hg HQ => foldM_P _ (fun f => D (KFile, f)) (file_sinks_of_step l s1) Hg HQ s1 s' G1 H).
+          -- intros f s2 s3 HDf G2 Hstep. destruct (fstate_of f s2) as [[]|]; try (injection Hstep as <-; apply P_refl).
+             exact (IHf f s2 s3 HDf G2 Hstep).
+          -- intros f Hin. destruct G1 as [Hc _]. exact (Hc _ _ HD (file_sink_has_dep l f s1 Hin)).
+        * (* FAILED *)
+          destruct (set_sstate l SPending false s) as [s1| |] eqn:H1; cbn [bind] in H; try discriminate.
+          assert (P1 : P s s1) by exact (set_pending_P l s s1 HD H1).
+          apply (P_trans s s1 s' P1).
+          assert (G1 : good s1) by exact (good_P s s1 Hgood P1).
+          apply (fun Hg HQ => foldM_P _ (fun f => D (KFile, f)) (file_sinks_of_step l s1) Hg HQ s1 s' G1 H).
+          -- intros f s2 s3 HDf G2 Hstep. destruct (fstate_of f s2) as [[]|]; try (injection Hstep as <-; apply P_refl).
+             exact (IHf f s2 s3 HDf G2 Hstep).
+          -- intros f Hin. destruct G1 as [Hc _]. exact (Hc _ _ HD (file_sink_has_dep l f s1 Hin)).
+        * injection H as <-. apply P_refl.
+      + intros f s s' HD Hgood H. rewrite mfof_eq in H.
+        destruct (fstate_of f s) as [fs|] eqn:Hfs; [|discriminate].
+        destruct fs; try discriminate.
+        * (* BUILT *)
+          unfold set_fstate in H.
+          destruct (set_fstate_hash f FOutdated None s) as [s1| |] eqn:H1; cbn [bind] in H; try discriminate.
+          destruct (set_fstate_hash_spec _ _ _ _ _ H1) as [Hn [Hst [Hd [_ Hfl]]]].
+          assert (P1 : P s s1).
+          { repeat split; try assumption.
+            - rewrite Hst. reflexivity.
+            - intros l. apply need_of_steps. exact Hst.
+            - intros l. left. apply sstate_of_steps. exact Hst.
+            - intros f'. destruct (Hfl f') as [He|[-> _]]; [left; exact He | right; exact Hfs]. }
+          apply (P_trans s s1 s' P1).
+          assert (G1 : good s1) by exact (good_P s s1 Hgood P1).
+          apply (fun Hg HQ => foldM_P _ (fun l => D (KStep, l)) (step_sinks_of_file f s1) Hg HQ s1 s' G1 H).
+          -- intros l s2 s3 HDl G2 Hstep. exact (IHs l s2 s3 HDl G2 Hstep).
+          -- intros l Hin. destruct G1 as [Hc _]. exact (Hc _ _ HD (step_sink_has_dep f l s1 Hin)).
+        * injection H as <-. apply P_refl.
+  Qed.
+
+  Lemma mark_step_pending_P l s s' : D (KStep, l) -> good s -> mark_step_pending l s = Ok s' -> P s s'.
+  Proof. intros HD Hg H. exact (proj1 (mark_spec (fuel_of s)) l s s' HD Hg H). Qed.
+
+  Lemma mark_consumers_P f s s' : D (KFile, f) -> good s -> mark_consumers_pending f s = Ok s' -> P s s'.
+  Proof.
+    intros HD Hg H. unfold mark_consumers_pending in H.
+    apply (fun Hg' HQ => foldM_P _ (fun l => D (KStep, l)) (step_sinks_of_file f s) Hg' HQ s s' Hg H).
+    - intros l s2 s3 HDl G2 Hstep. exact (mark_step_pending_P l s2 s3 HDl G2 Hstep).
+    - intros l Hin. destruct Hg as [Hc _]. exact (Hc _ _ HD (step_sink_has_dep f l s Hin)).
+  Qed.
+End Cone.
+
+(* ------------------------------------------------------------------------------------------ *)
+(* Cone: an EXTERNAL hash update of source files makes only cone steps PENDING                 *)
+(* ------------------------------------------------------------------------------------------ *)
+Section ConeUpdate.
+  Variable D : key -> Prop.
+  Variable E : list str.
+  Hypothesis HDE : forall f, In f E -> D (KFile, f).
+
+  (* the rows of the plan of update_file_hashes EXTERNAL on source files *)
+  Definition plan_ok (plan : list planrow) : Prop :=
+    forall x, In x plan -> In (p_path x) E /\ (p_state x = FConfirmed \/ p_state x = FMissing).
+
+  Lemma plan_fold_ok s hs :
+    (forall ph, In ph hs -> In (fst ph) E) ->
+    static_sources_b s hs = true ->
+    forall acc plan, plan_ok acc ->
+    foldM (fun acc ph =>
+             match find_file (fst ph) s with
+             | None => Internal 118
+             | Some r =>
+               match transition CExternal (fstt r) (is_some (snd ph)) with
+               | None => Internal 119
+               | Some (ns, act) => Ok (acc ++ [mkP (fst ph) (snd ph) ns act])
+               end
+             end) hs acc = Ok plan -> plan_ok plan.
+  Proof.
+    induction hs as [|ph hs IH]; intros HE Hst acc plan Hacc H; cbn [foldM] in H.
+    - injection H as <-. exact Hacc.
+    - cbn [static_sources_b forallb] in Hst. apply andb_true_iff in Hst. destruct Hst as [Hph Hst].
+      unfold fstate_of in Hph.
+      destruct (find_file (fst ph) s) as [r|] eqn:Hf; [|discriminate].
+      destruct (transition CExternal (fstt r) (is_some (snd ph))) as [[ns act]|] eqn:Htr; [|discriminate].
+      cbn [bind] in H. apply (IH (fun p Hp => HE p (or_intror Hp)) Hst _ plan) in H; [exact H|].
+      intros x Hx. apply in_app_or in Hx. destruct Hx as [Hx|[<-|[]]]; [exact (Hacc x Hx)|].
+      cbn [p_path p_state]. split; [apply HE; left; reflexivity|].
+      destruct (fstt r); try discriminate; destruct (is_some (snd ph)); cbn in Htr;
+        try discriminate; injection Htr as <- _; auto.
+  Qed.
+
+  (* writing the planned rows: nothing but file rows of E changes, and those stay static *)
+  Lemma plan_write_ok plan :
+    plan_ok plan ->
+    forall s s1, Estatic E s ->
+    foldM (fun s x => set_fstate_hash (p_path x) (p_state x)
+                        (Some (match p_hash x with Some v => Some v | None => Some 0 end)) s) plan s = Ok s1 ->
+    nodes s1 = nodes s /\ steps s1 = steps s /\ deps s1 = deps s /\ Estatic E s1.
+  Proof.
+    induction plan as [|x plan IH]; intros Hok s s1 HE H; cbn [foldM] in H.
+    - injection H as <-. repeat split; try reflexivity. exact HE.
+    - destruct (set_fstate_hash (p_path x) (p_state x) _ s) as [s2| |] eqn:H2; cbn [bind] in H; try discriminate.
+      destruct (set_fstate_hash_spec _ _ _ _ _ H2) as [Hn [Hst [Hd [_ Hfl]]]].
+      assert (HE2 : Estatic E s2).
+      { intros f Hin. destruct (Hfl f) as [He|[-> Hnew]].
+        - rewrite He. apply HE. exact Hin.
+        - rewrite Hnew. destruct (Hok x (or_introl eq_refl)) as [_ [->| ->]]; auto. }
+      destruct (IH (fun y Hy => Hok y (or_intror Hy)) s2 s1 HE2 H) as [Hn' [Hst' [Hd' HE']]].
+      repeat split; try congruence. exact HE'.
+  Qed.
+
+  Lemma handle_updated_P l s s' :
+    In l E -> good D E s -> handle_updated_file l s = Ok s' -> P D s s'.
+  Proof.
+    intros Hin Hg H. unfold handle_updated_file in H.
+    destruct Hg as [Hc He]. destruct (He l Hin) as [Hs|Hs]; rewrite Hs in H.
+    - exact (mark_consumers_P D E l s s' (HDE l Hin) (conj Hc He) H).
+    - injection H as <-. apply P_refl.
+  Qed.
+
+  Lemma handle_deleted_P l s s' :
+    In l E -> good D E s -> handle_deleted_file l s = Ok s' -> P D s s'.
+  Proof.
+    intros Hin Hg H. unfold handle_deleted_file in H.
+    destruct Hg as [Hc He]. destruct (He l Hin) as [Hs|Hs]; rewrite Hs in H; cbn [bind] in H;
+      exact (mark_consumers_P D E l s s' (HDE l Hin) (conj Hc He) H).
+  Qed.
+
+  Lemma with_act_in plan a l :
+    plan_ok plan ->
+    In l (map p_path (filter (fun x => match p_act x with Some b => action_eqb a b | None => false end) plan)) ->
+    In l E.
+  Proof.
+    intros Hok H. apply in_map_iff in H. destruct H as [x [<- Hx]]. apply filter_In in Hx.
+    exact (proj1 (Hok x (proj1 Hx))).
+  Qed.
+
+  Lemma external_update_P s hs s' :
+    (forall ph, In ph hs -> In (fst ph) E) ->
+    static_sources_b s hs = true ->
+    good D E s ->
+    update_file_hashes CExternal hs s = Ok s' ->
+    PS D s s' /\ Estatic E s'.
+  Proof.
+    intros HE Hst Hg H. unfold update_file_hashes in H.
+    match type of H with (do plan <- ?F; _) = _ => destruct F as [plan| |] eqn:Hplan end;
+      cbn [bind] in H; try discriminate.
+    assert (Hok : plan_ok plan).
+    { apply (plan_fold_ok s hs HE Hst [] plan); [intros x []|exact Hplan]. }
+    match type of H with (do s1 <- ?F; _) = _ => destruct F as [s1| |] eqn:Hw end;
+      cbn [bind] in H; try discriminate.
+    destruct (plan_write_ok plan Hok s s1 (proj2 Hg) Hw) as [Hn [Hs [Hd HE1]]].
+    assert (P1 : PS D s s1).
+    { repeat split; try assumption.
+      - rewrite Hs. reflexivity.
+      - intros l. apply need_of_steps. exact Hs.
+      - intros l. left. apply sstate_of_steps. exact Hs. }
+    assert (G1 : good D E s1).
+    { split; [|exact HE1]. intros a b Ha Hab. rewrite (has_dep_deps a b s s1 Hd) in Hab.
+      exact (proj1 Hg a b Ha Hab). }
+    match type of H with (do s2 <- ?F; _) = _ => destruct F as [s2| |] eqn:H2 end;
+      cbn [bind] in H; try discriminate.
+    assert (P2 : P D s1 s2).
+    { apply (fun Hg' HQ => foldM_P D E _ (fun l => In l E) _ Hg' HQ s1 s2 G1 H2).
+      - intros l sa sb Hl Hga Hh. exact (handle_updated_P l sa sb Hl Hga Hh).
+      - intros l Hl. exact (with_act_in plan AUpdated l Hok Hl). }
+    assert (G2 : good D E s2) by exact (good_P D E s1 s2 G1 P2).
+    match type of H with (do s3 <- ?F; _) = _ => destruct F as [s3| |] eqn:H3 end;
+      cbn [bind] in H; try discriminate.
+    assert (P3 : P D s2 s3).
+    { apply (fun Hg' HQ => foldM_P D E _ (fun l => In l E) _ Hg' HQ s2 s3 G2 H3).
+      - intros l sa sb Hl Hga Hh. exact (handle_deleted_P l sa sb Hl Hga Hh).
+      - intros l Hl. exact (with_act_in plan ADeleted l Hok Hl). }
+    assert (G3 : good D E s3) by exact (good_P D E s2 s3 G2 P3).
+    assert (P4 : P D s3 s').
+    { apply (fun Hg' HQ => foldM_P D E _ (fun l => In l E) _ Hg' HQ s3 s' G3 H).
+      - intros l sa sb Hl Hga Hh. exact (mark_consumers_P D E l sa sb (HDE l Hl) Hga Hh).
+      - intros l Hl. exact (with_act_in plan ACompleted l Hok Hl). }
+    assert (P14 : P D s1 s') by exact (P_trans D s1 s2 s' P2 (P_trans D s2 s3 s' P3 P4)).
+    split; [|exact (proj2 (good_P D E s1 s' G1 P14))].
+    destruct P1 as [Hn1 [Hd1 [Hl1 [Hq1 Hs1]]]]. destruct P14 as [[Hn2 [Hd2 [Hl2 [Hq2 Hs2]]]] _].
+    refine (conj _ (conj _ (conj _ (conj _ _)))).
+    - congruence.
+    - congruence.
+    - congruence.
+    - intros l. rewrite (Hq2 l). apply Hq1.
+    - intros l. destruct (Hs2 l) as [He|Hr]; [rewrite He; apply Hs1 | right; exact Hr].
+  Qed.
+End ConeUpdate.
+
+(* the cone of model/Noop.v is closed under the dependency rows of the state it is computed on *)
+Lemma down_closed q E G s : deps s = deps q -> closed (down q E G) s.
+Proof.
+  intros Hd a b Ha Hab. rewrite (has_dep_deps a b q s Hd) in Hab. exact (down_dep q E G a b Ha Hab).
+Qed.
+
+Theorem pending_only_in_cone (s : st) (hs : list (str * option N)) (s' : st) :
+  static_sources_b s hs = true ->
+  update_file_hashes CExternal hs s = Ok s' ->
+  nodes s' = nodes s /\ deps s' = deps s /\
+  (forall l, sstate_of l s' <> sstate_of l s ->
+             in_cone s (map fst hs) [] l /\ sstate_of l s' = Some SPending).
+Proof.
+  intros Hst H.
+  assert (Hg : good (down s (map fst hs) []) (map fst hs) s).
+  { split; [apply down_closed; reflexivity|].
+    intros f Hin. unfold static_sources_b in Hst. rewrite forallb_forall in Hst.
+    apply in_map_iff in Hin. destruct Hin as [ph [<- Hph]]. specialize (Hst ph Hph).
+    destruct (fstate_of (fst ph) s) as [[]|]; try discriminate; auto. }
+  destruct (external_update_P (down s (map fst hs) []) (map fst hs)
+              (fun f Hf => down_edited s _ _ f Hf) s hs s'
+              (fun ph Hph => in_map fst hs ph Hph) Hst Hg H) as [[Hn [Hd [_ [_ Hs]]]] _].
+  split; [exact Hn|]. split; [exact Hd|].
+  intros l Hne. destruct (Hs l) as [He|Hr]; [contradiction | exact Hr].
+Qed.
+
+(* marking a cone member PENDING (environment change, changed glob matches: persist_nglob_matches)
+   stays inside the cone as well *)
+Theorem mark_pending_in_cone (s : st) (E G : list str) (l : str) (s' : st) :
+  in_cone s E G l ->
+  (forall f, In f E -> fstate_of f s = Some FConfirmed \/ fstate_of f s = Some FMissing) ->
+  mark_step_pending l s = Ok s' ->
+  nodes s' = nodes s /\ deps s' = deps s /\
+  (forall l', sstate_of l' s' <> sstate_of l' s -> in_cone s E G l' /\ sstate_of l' s' = Some SPending).
+Proof.
+  intros Hin HE H.
+  assert (Hg : good (down s E G) E s) by (split; [apply down_closed; reflexivity | exact HE]).
+  destruct (mark_step_pending_P (down s E G) E l s s' Hin Hg H) as [[Hn [Hd [_ [_ Hs]]]] _].
+  split; [exact Hn|]. split; [exact Hd|].
+  intros l' Hne. destruct (Hs l') as [He|Hr]; [contradiction | exact Hr].
+Qed.
+
+(* ------------------------------------------------------------------------------------------ *)
+(* Cone invariant over the transactions of a rebuild (partial: see cone_op in model/Noop.v)    *)
+(* ------------------------------------------------------------------------------------------ *)
+Lemma existsb_ext' {A} (f g : A -> bool) (l : list A) :
+  (forall x, f x = g x) -> existsb f l = existsb g l.
+Proof. intros H. induction l as [|a l IH]; cbn [existsb]; [reflexivity | rewrite H, IH; reflexivity]. Qed.
+
+Lemma attached_nodes k s s' : nodes s' = nodes s -> attached k s' = attached k s.
+Proof. intros H. unfold attached, is_detached, find_node. rewrite H. reflexivity. Qed.
+Lemma creator_of_nodes k s s' : nodes s' = nodes s -> creator_of k s' = creator_of k s.
+Proof. intros H. unfold creator_of, find_node. rewrite H. reflexivity. Qed.
+Lemma file_sinks_deps l s s' : deps s' = deps s -> file_sinks_of_step l s' = file_sinks_of_step l s.
+Proof. intros H. unfold file_sinks_of_step, sinks_of. rewrite H. reflexivity. Qed.
+Lemma step_sinks_deps f s s' : deps s' = deps s -> step_sinks_of_file f s' = step_sinks_of_file f s.
+Proof. intros H. unfold step_sinks_of_file, sinks_of. rewrite H. reflexivity. Qed.
+
+Lemma required_f_same fuel s s' :
+  nodes s' = nodes s -> deps s' = deps s -> (forall l, need_of l s' = need_of l s) ->
+  forall l, required_f fuel l s' = required_f fuel l s.
+Proof.
+  intros Hn Hd Hq. induction fuel as [|fuel IH]; intros l; cbn [required_f];
+    specialize (Hq l) as Hql; unfold need_of in Hql;
+    destruct (find_step l s') as [r'|], (find_step l s) as [r|]; try discriminate; try reflexivity;
+    injection Hql as Hql; rewrite Hql; [reflexivity|].
+  f_equal. rewrite (file_sinks_deps l s s' Hd). apply existsb_ext'. intros f.
+  rewrite (step_sinks_deps f s s' Hd). apply existsb_ext'. intros c.
+  rewrite (attached_nodes (KStep, c) s s' Hn), IH. reflexivity.
+Qed.
+
+Section ConeInvariant.
+  Variable q : st.
+  Variable E G : list str.
+
+  Definition R (s : st) : Prop :=
+    nodes s = nodes q /\ deps s = deps q /\ length (steps s) = length (steps q) /\
+    (forall l, need_of l s = need_of l q) /\
+    (forall l, sstate_of l s = sstate_of l q \/ in_cone q E G l) /\
+    Estatic E s.
+
+  Lemma R_good s : R s -> good (down q E G) E s.
+  Proof. intros [_ [Hd [_ [_ [_ He]]]]]. split; [apply down_closed; exact Hd | exact He]. Qed.
+
+  Lemma R_PS s s' : R s -> PS (down q E G) s s' -> Estatic E s' -> R s'.
+  Proof.
+    intros [Hn [Hd [Hl [Hq [Hs _]]]]] [Hn' [Hd' [Hl' [Hq' Hs']]]] He'.
+    refine (conj _ (conj _ (conj _ (conj _ (conj _ He'))))).
+    - congruence.
+    - congruence.
+    - congruence.
+    - intros l. rewrite (Hq' l). apply Hq.
+    - intros l. destruct (Hs' l) as [He|[Hc _]]; [rewrite He; apply Hs | right; exact Hc].
+  Qed.
+
+  Lemma R_P s s' : R s -> P (down q E G) s s' -> R s'.
+  Proof.
+    intros HR HP. apply (R_PS s s' HR (proj1 HP)). exact (proj2 (good_P _ E s s' (R_good s HR) HP)).
+  Qed.
+
+  (* a single row gets a new state: fine when that step is in the cone *)
+  Lemma R_set_sstate s l new d s' :
+    R s -> in_cone q E G l -> set_sstate l new d s = Ok s' -> R s'.
+  Proof.
+    intros [Hn [Hd [Hl [Hq [Hs He]]]]] Hc H.
+    destruct (set_sstate_spec _ _ _ _ _ H) as [Hn' [Hf' [Hd' [_ [Hl' [Hq' Hs']]]]]].
+    refine (conj _ (conj _ (conj _ (conj _ (conj _ _))))).
+    - congruence.
+    - congruence.
+    - congruence.
+    - intros l'. rewrite (Hq' l'). apply Hq.
+    - intros l'. destruct (Hs' l') as [He'|[-> _]]; [rewrite He'; apply Hs | right; exact Hc].
+    - intros f Hin. rewrite (fstate_of_files f s s' Hf'). apply He. exact Hin.
+  Qed.
+
+  Hypothesis Hquiescent : quiescent_success_b q = true.
+
+  (* a step that satisfies the dispatch predicate during the rebuild is in the cone *)
+  Lemma guard_in_cone s l : R s -> dispatch_guard l s = true -> in_cone q E G l.
+  Proof.
+    intros [Hn [Hd [Hl [Hq [Hs _]]]]] Hg. unfold dispatch_guard in Hg.
+    destruct (find_step l s) as [r|] eqn:Hf; [|discriminate].
+    apply andb_true_iff in Hg. destruct Hg as [Hg _].
+    apply andb_true_iff in Hg. destruct Hg as [Hg Hreq].
+    apply andb_true_iff in Hg. destruct Hg as [Hg _].
+    apply andb_true_iff in Hg. destruct Hg as [Hatt Hpend]. apply sstate_eqb_eq in Hpend.
+    assert (Hreq' : required l q = true).
+    { unfold required in *. rewrite <- Hl. rewrite <- (required_f_same _ q s Hn Hd Hq l). exact Hreq. }
+    specialize (Hq l) as Hql. unfold need_of in Hql. rewrite Hf in Hql.
+    destruct (find_step l q) as [rq|] eqn:Hfq; [|discriminate].
+    destruct (find_step_in _ _ _ Hfq) as [Hinq Hlq].
+    destruct (quiescent_parts q Hquiescent) as [_ [Hsteps _]].
+    rewrite (attached_nodes (KStep, l) q s Hn) in Hatt. unfold attached in Hatt. apply negb_true_iff in Hatt.
+    rewrite <- Hlq in Hatt, Hreq'.
+    destruct (quiescent_row q rq Hsteps Hinq Hatt) as [[_ Hsq]|[Hnr _]]; [|congruence].
+    destruct (Hs l) as [He|Hc]; [|exact Hc].
+    unfold sstate_of in He. rewrite Hf, Hfq, Hpend, Hsq in He. discriminate.
+  Qed.
+
+  Lemma Estatic_static s hs : Estatic E s -> (forall ph, In ph hs -> In (fst ph) E) -> static_sources_b s hs = true.
+  Proof.
+    intros He Hin. unfold static_sources_b. apply forallb_forall. intros ph Hph.
+    destruct (He (fst ph) (Hin ph Hph)) as [->| ->]; reflexivity.
+  Qed.
+End ConeInvariant.
+
+(* ------------------------------------------------------------------------------------------ *)
+(* Cone: successful completion (or skip) of a cone step                                        *)
+(* ------------------------------------------------------------------------------------------ *)
+Section ConeCompletion.
+  Variable D : key -> Prop.
+  Variable E : list str.
+
+  Definition plan_ok2 (plan : list planrow) : Prop :=
+    forall x, In x plan -> D (KFile, p_path x) /\ ~ In (p_path x) E /\ p_act x = Some ACompleted.
+
+  Lemma plan_fold_ok2 s hs :
+    (forall ph, In ph hs -> D (KFile, fst ph)) -> Estatic E s ->
+    forall acc plan, plan_ok2 acc ->
+    foldM (fun acc ph =>
+             match find_file (fst ph) s with
+             | None => Internal 118
+             | Some r =>
+               match transition CSucceeded (fstt r) (is_some (snd ph)) with
+               | None => Internal 119
+               | Some (ns, act) => Ok (acc ++ [mkP (fst ph) (snd ph) ns act])
+               end
+             end) hs acc = Ok plan -> plan_ok2 plan.
+  Proof.
+    intros HD He. induction hs as [|ph hs IH]; intros acc plan Hacc H; cbn [foldM] in H.
+    - injection H as <-. exact Hacc.
+    - destruct (find_file (fst ph) s) as [r|] eqn:Hf; [|discriminate].
+      destruct (transition CSucceeded (fstt r) (is_some (snd ph))) as [[ns act]|] eqn:Htr; [|discriminate].
+      cbn [bind] in H.
+      assert (HD' : forall p, In p hs -> D (KFile, fst p)) by (intros p Hp; apply HD; right; exact Hp).
+      specialize (IH HD'). apply (IH _ plan) in H; [exact H|].
+      intros x Hx. apply in_app_or in Hx. destruct Hx as [Hx|[<-|[]]]; [exact (Hacc x Hx)|].
+      cbn [p_path p_act]. split; [apply HD; left; reflexivity|]. split.
+      + intros Hin. destruct (He (fst ph) Hin) as [Hs|Hs]; unfold fstate_of in Hs; rewrite Hf in Hs;
+          injection Hs as Hs; rewrite Hs in Htr; destruct (is_some (snd ph)); discriminate.
+      + destruct (fstt r); destruct (is_some (snd ph)); cbn in Htr; try discriminate;
+          injection Htr as _ <-; reflexivity.
+  Qed.
+
+  Lemma plan_write_ok2 plan :
+    plan_ok2 plan ->
+    forall s s1, Estatic E s ->
+    foldM (fun s x => set_fstate_hash (p_path x) (p_state x)
+                        (Some (match p_hash x with Some v => Some v | None => Some 0 end)) s) plan s = Ok s1 ->
+    nodes s1 = nodes s /\ steps s1 = steps s /\ deps s1 = deps s /\ Estatic E s1.
+  Proof.
+    induction plan as [|x plan IH]; intros Hok s s1 HE H; cbn [foldM] in H.
+    - injection H as <-. repeat split; try reflexivity. exact HE.
+    - destruct (set_fstate_hash (p_path x) (p_state x) _ s) as [s2| |] eqn:H2; cbn [bind] in H; try discriminate.
+      destruct (set_fstate_hash_spec _ _ _ _ _ H2) as [Hn [Hst [Hd [_ Hfl]]]].
+      assert (HE2 : Estatic E s2).
+      { intros f Hin. destruct (Hfl f) as [He|[-> _]].
+        - rewrite He. apply HE. exact Hin.
+        - exfalso. exact (proj1 (proj2 (Hok x (or_introl eq_refl))) Hin). }
+      destruct (IH (fun y Hy => Hok y (or_intror Hy)) s2 s1 HE2 H) as [Hn' [Hst' [Hd' HE']]].
+      repeat split; try congruence. exact HE'.
+  Qed.
+
+  Lemma with_act_nil plan a :
+    plan_ok2 plan -> a <> ACompleted ->
+    map p_path (filter (fun x => match p_act x with Some b => action_eqb a b | None => false end) plan) = [].
+  Proof.
+    intros Hok Ha. rewrite filter_nil; [reflexivity|]. intros x Hx.
+    rewrite (proj2 (proj2 (Hok x Hx))). destruct a; try reflexivity. contradiction.
+  Qed.
+
+  Lemma succeeded_update_P s hs s' :
+    (forall ph, In ph hs -> D (KFile, fst ph)) -> good D E s ->
+    update_file_hashes CSucceeded hs s = Ok s' -> PS D s s' /\ Estatic E s'.
+  Proof.
+    intros HD Hg H. unfold update_file_hashes in H.
+    match type of H with (do plan <- ?F; _) = _ => destruct F as [plan| |] eqn:Hplan end;
+      cbn [bind] in H; try discriminate.
+    assert (Hok : plan_ok2 plan).
+    { apply (plan_fold_ok2 s hs HD (proj2 Hg) [] plan); [intros x []|exact Hplan]. }
+    match type of H with (do s1 <- ?F; _) = _ => destruct F as [s1| |] eqn:Hw end;
+      cbn [bind] in H; try discriminate.
+    destruct (plan_write_ok2 plan Hok s s1 (proj2 Hg) Hw) as [Hn [Hs [Hd HE1]]].
+    rewrite (with_act_nil plan AUpdated Hok) in H by discriminate.
+    rewrite (with_act_nil plan ADeleted Hok) in H by discriminate.
+    cbn [foldM bind] in H.
+    assert (G1 : good D E s1).
+    { split; [|exact HE1]. intros a b Ha Hab. rewrite (has_dep_deps a b s s1 Hd) in Hab.
+      exact (proj1 Hg a b Ha Hab). }
+    assert (P4 : P D s1 s').
+    { apply (fun Hg' HQ => foldM_P D E _ (fun l => D (KFile, l)) _ Hg' HQ s1 s' G1 H).
+      - intros l sa sb Hl Hga Hh. exact (mark_consumers_P D E l sa sb Hl Hga Hh).
+      - intros l Hl. apply in_map_iff in Hl. destruct Hl as [x [<- Hx]]. apply filter_In in Hx.
+        exact (proj1 (Hok x (proj1 Hx))). }
+    split; [|exact (proj2 (good_P D E s1 s' G1 P4))].
+    destruct P4 as [[Hn2 [Hd2 [Hl2 [Hq2 Hs2]]]] _].
+    refine (conj _ (conj _ (conj _ (conj _ _)))).
+    - congruence.
+    - congruence.
+    - rewrite Hl2, Hs. reflexivity.
+    - intros l. rewrite (Hq2 l). apply need_of_steps. exact Hs.
+    - intros l. destruct (Hs2 l) as [He|Hr]; [left; rewrite He; apply sstate_of_steps; exact Hs | right; exact Hr].
+  Qed.
+End ConeCompletion.
+
+Lemma file_product_in l p s f :
+  In f (file_products_in l p s) ->
+  In (KFile, f) (products (KStep, l) s) /\ exists fs, fstate_of f s = Some fs /\ p fs = true.
+Proof.
+  unfold file_products_in. intros H. apply in_map_iff in H. destruct H as [k [Hk Hin]].
+  apply filter_In in Hin. destruct Hin as [Hin Hc]. apply andb_true_iff in Hc. destruct Hc as [Hkind Hp].
+  destruct k as [kk kl]. cbn [fst snd] in *. subst kl. destruct kk; try discriminate.
+  split; [exact Hin|]. destruct (fstate_of f s) as [fs|]; [|discriminate]. exists fs. split; [reflexivity | exact Hp].
+Qed.
+
+Lemma products_nodes k s s' : nodes s' = nodes s -> products k s' = products k s.
+Proof. intros H. unfold products. rewrite H. reflexivity. Qed.
+
+Section ConeInvariant2.
+  Variable q : st.
+  Variable E G : list str.
+  Hypothesis Hquiescent : quiescent_success_b q = true.
+
+  Lemma R_same s s' :
+    nodes s' = nodes s -> deps s' = deps s -> steps s' = steps s -> files s' = files s ->
+    R q E G s -> R q E G s'.
+  Proof.
+    intros Hn Hd Hs Hf [Hn0 [Hd0 [Hl0 [Hq0 [Hs0 He0]]]]].
+    refine (conj _ (conj _ (conj _ (conj _ (conj _ _))))).
+    - congruence.
+    - congruence.
+    - rewrite Hs. exact Hl0.
+    - intros l. rewrite (need_of_steps l s s' Hs). apply Hq0.
+    - intros l. rewrite (sstate_of_steps l s s' Hs). apply Hs0.
+    - intros f Hin. rewrite (fstate_of_files f s s' Hf). apply He0. exact Hin.
+  Qed.
+
+  Lemma foldM_R {A} (g : st -> A -> res st) (Q : A -> Prop) (l : list A) :
+    (forall a s s', Q a -> R q E G s -> g s a = Ok s' -> R q E G s') ->
+    (forall a, In a l -> Q a) ->
+    forall s s', R q E G s -> foldM g l s = Ok s' -> R q E G s'.
+  Proof.
+    intros Hg. induction l as [|a l IH]; intros HQ s s' HR H; cbn [foldM] in H.
+    - injection H as <-. exact HR.
+    - destruct (g s a) as [s1| |] eqn:Hga; cbn [bind] in H; try discriminate.
+      apply (IH (fun b Hb => HQ b (or_intror Hb)) s1 s'); [|exact H].
+      exact (Hg a s s1 (HQ a (or_introl eq_refl)) HR Hga).
+  Qed.
+
+  (* re-validating an OUTDATED product of a cone step: BUILT again, consumers PENDING *)
+  Lemma rebuilt_product_R s f s' :
+    down q E G (KFile, f) -> ~ In f E -> R q E G s ->
+    (do s1 <- set_fstate f FBuilt s; mark_consumers_pending f s1) = Ok s' -> R q E G s'.
+  Proof.
+    intros HD HnE HR H. unfold set_fstate in H.
+    destruct (set_fstate_hash f FBuilt None s) as [s1| |] eqn:H1; cbn [bind] in H; try discriminate.
+    destruct (set_fstate_hash_spec _ _ _ _ _ H1) as [Hn [Hst [Hd [_ Hfl]]]].
+    assert (R1 : R q E G s1).
+    { destruct HR as [Hn0 [Hd0 [Hl0 [Hq0 [Hs0 He0]]]]].
+      refine (conj _ (conj _ (conj _ (conj _ (conj _ _))))).
+      - congruence.
+      - congruence.
+      - rewrite Hst. exact Hl0.
+      - intros l. rewrite (need_of_steps l s s1 Hst). apply Hq0.
+      - intros l. rewrite (sstate_of_steps l s s1 Hst). apply Hs0.
+      - intros f' Hin. destruct (Hfl f') as [He|[-> _]]; [rewrite He; apply He0; exact Hin | contradiction]. }
+    exact (R_P q E G s1 s' R1 (mark_consumers_P _ E f s1 s' HD (R_good q E G s1 R1) H)).
+  Qed.
+
+  Lemma mark_completed_ok_eq l s :
+    mark_completed l true false s =
+    if negb (is_some (find_step l s)) then Internal 120 else
+    (do s1 <- set_sstate l SSucceeded false s;
+     do s2 <- foldM (fun s f => do s' <- set_fstate f FBuilt s; mark_consumers_pending f s')
+                    (file_products_in l is_outdated s1) s1;
+     Ok (store_hash l s2)).
+  Proof. reflexivity. Qed.
+
+  Lemma mark_completed_ok_R s l s' :
+    in_cone q E G l -> R q E G s -> mark_completed l true false s = Ok s' -> R q E G s'.
+  Proof.
+    intros Hc HR H. rewrite mark_completed_ok_eq in H.
+    destruct (negb (is_some (find_step l s))); [discriminate|].
+    destruct (set_sstate l SSucceeded false s) as [s1| |] eqn:H1; cbn [bind] in H; try discriminate.
+    assert (R1 : R q E G s1) by exact (R_set_sstate q E G s l _ _ s1 HR Hc H1).
+    match type of H with (do s2 <- ?F; _) = _ => destruct F as [s2| |] eqn:H2 end;
+      cbn [bind] in H; try discriminate.
+    injection H as <-.
+    assert (R2 : R q E G s2).
+    { apply (fun Hg HQ => foldM_R _ (fun f => down q E G (KFile, f) /\ ~ In f E) _ Hg HQ s1 s2 R1 H2).
+      - intros f sa sb [HD HnE] Ra Hstep. exact (rebuilt_product_R sa f sb HD HnE Ra Hstep).
+      - intros f Hin. destruct (file_product_in l is_outdated s1 f Hin) as [Hprod [fs [Hfs Hout]]].
+        split.
+        + apply (down_created q E G l (KFile, f) Hc).
+          rewrite <- (products_nodes (KStep, l) q s1 (proj1 R1)). exact Hprod.
+        + intros HinE. destruct R1 as [_ [_ [_ [_ [_ He1]]]]].
+          destruct (He1 f HinE) as [Hs|Hs]; rewrite Hs in Hfs; injection Hfs as <-; discriminate. }
+    unfold store_hash. destruct (has_hash l s2); [exact R2|].
+    apply (R_same s2); try reflexivity. exact R2.
+  Qed.
+
+  Lemma cone_op_R s o : R q E G s -> cone_op q E G s o -> R q E G (apply_op s o).
+  Proof.
+    intros HR Hop. unfold apply_op.
+    destruct (step_op o s) as [s'| |] eqn:Hstep; try exact HR.
+    destruct Hop as [hs Hin | l Hc | l Hg | l Hc | l hs Hc Hout]; cbn [step_op] in Hstep.
+    - destruct (external_update_P (down q E G) E (fun f Hf => down_edited q E G f Hf) s hs s' Hin
+                  (Estatic_static E s hs (proj2 (R_good q E G s HR)) Hin) (R_good q E G s HR) Hstep) as [HPS HE].
+      exact (R_PS q E G s s' HR HPS HE).
+    - exact (R_P q E G s s' HR (mark_step_pending_P _ E l s s' Hc (R_good q E G s HR) Hstep)).
+    - exact (R_set_sstate q E G s l _ _ s' HR (guard_in_cone q E G Hquiescent s l HR Hg) Hstep).
+    - exact (R_set_sstate q E G s l _ _ s' HR Hc Hstep).
+    - assert (H0 : update_file_hashes CFailed [] s = Ok s) by reflexivity.
+      rewrite H0 in Hstep. cbn [bind] in Hstep.
+      destruct (update_file_hashes CSucceeded hs s) as [s1| |] eqn:H1; cbn [bind] in Hstep; try discriminate.
+      assert (HD : forall ph, In ph hs -> down q E G (KFile, fst ph)).
+      { intros ph Hph. exact (down_dep q E G _ _ Hc (Hout ph Hph)). }
+      destruct (succeeded_update_P (down q E G) E s hs s1 HD (R_good q E G s HR) H1) as [HPS HE].
+      exact (mark_completed_ok_R s1 l s' Hc (R_PS q E G s s1 HR HPS HE) Hstep).
+  Qed.
+
+  Hypothesis HEstatic : Estatic E q.
+
+  Lemma R_init : R q E G q.
+  Proof. repeat split; try reflexivity; try (intros; left; reflexivity). exact HEstatic. Qed.
+
+  Theorem cone_invariant_partial (ops : list op) (s : st) :
+    R q E G s -> cone_ops q E G s ops -> R q E G (run_ops ops s).
+  Proof.
+    revert s. induction ops as [|o ops IH]; intros s HR Hops; cbn [run_ops fold_left].
+    - exact HR.
+    - destruct Hops as [Hop Hrest]. apply IH; [exact (cone_op_R s o HR Hop) | exact Hrest].
+  Qed.
+
+  (* every step that satisfies the dispatch predicate at any point of such a rebuild, hence every
+     step for which a command is executed, lies in the cone of the edited files *)
+  Theorem cone_partial (ops : list op) :
+    cone_ops q E G q ops ->
+    (forall l, dispatch_guard l (run_ops ops q) = true -> in_cone q E G l) /\
+    (forall l, In l (executed ops q) -> in_cone q E G l).
+  Proof.
+    intros Hops. split.
+    - intros l Hg. exact (guard_in_cone q E G Hquiescent _ l (cone_invariant_partial ops q R_init Hops) Hg).
+    - assert (Hgen : forall ops s, R q E G s -> cone_ops q E G s ops ->
+                                   forall l, In l (executed ops s) -> in_cone q E G l).
+      { clear ops Hops. induction ops as [|o ops IH]; intros s HR Hops l Hin; cbn [executed] in Hin; [destruct Hin|].
+        destruct Hops as [Hop Hrest]. apply in_app_or in Hin. destruct Hin as [Hin|Hin].
+        - destruct o; try destruct Hin.
+          destruct (has_hash label s); [destruct Hin|]. destruct Hin as [<-|[]].
+          inversion Hop as [| |l' Hg| |]; subst. exact (guard_in_cone q E G Hquiescent s _ HR Hg).
+        - exact (IH (apply_op s o) (cone_op_R s o HR Hop) Hrest l Hin). }
+      exact (Hgen ops q R_init Hops).
+  Qed.
+End ConeInvariant2.
+
+(* the invariant spelled out without the auxiliary definitions *)
+Corollary cone_invariant_explicit (q : st) (E G : list str) (ops : list op) :
+  quiescent_success_b q = true ->
+  (forall f, In f E -> fstate_of f q = Some FConfirmed \/ fstate_of f q = Some FMissing) ->
+  cone_ops q E G q ops ->
+  let s := run_ops ops q in
+  nodes s = nodes q /\ deps s = deps q /\
+  (forall l, sstate_of l s = sstate_of l q \/ in_cone q E G l) /\
+  (forall f, In f E -> fstate_of f s = Some FConfirmed \/ fstate_of f s = Some FMissing).
+Proof.
+  intros Hq HE Hops.
+  destruct (cone_invariant_partial q E G Hq ops q (R_init q E G HE) Hops) as [Hn [Hd [_ [_ [Hs He]]]]].
+  repeat split; assumption.
+Qed.
